@@ -337,8 +337,13 @@ func (p *Plugin) maintenance(workerData *pipeline.WorkerData) {
 		return
 	}
 
-	p.logger.Infof("reconnecting worker...")
 	data := (*workerData).(*data)
+	if data.gelf == nil {
+		// nothing to close: no out() since the last reconnect, or the last out() could not connect / write
+		return
+	}
+
+	p.logger.Infof("reconnecting worker...")
 	_ = data.gelf.close()
 	data.gelf = nil
 }
